@@ -84,7 +84,7 @@ func decodeCode(r *bytes.Reader, codeSectionStart uint64, ret *wasm.Code) (err e
 	}
 
 	bodyOffsetInCodeSection := codeSectionStart - uint64(r.Len())
-	body := make([]byte, remaining)
+	body := make([]byte, boundedSize(r, uint64(remaining)))
 	if _, err = io.ReadFull(r, body); err != nil {
 		return fmt.Errorf("read body: %w", err)
 	}
